@@ -1,6 +1,7 @@
 import Mpd.Tag
 import MpdSpec.Names
 import MpdProofs.Lemmas.Bytes
+import MpdProofs.Lemmas.Utf8
 /-!
 # C20 — tags and subsystems compare, hash and parse by protocol name
 
@@ -337,5 +338,14 @@ example : Tag.tryFrom (str "x-custom") = .ok (.other (str "x-custom")) := by dec
 example : (Tag.other (str "Album")).eq (.named .Album) = true := by decide
 example : (Tag.other (str "album")).eq (.named .Album) = false := by decide
 example : Subsystem.fromName (str "playlist") = .named .Queue := by decide
+
+/-! ## `Tag::try_from` scans `char_indices()`: the bytewise model agrees on every string -/
+
+theorem C20_scan_is_charwise (cs : List Nat) (h : ∀ c ∈ cs, Utf8.isScalar c = true) :
+    firstBad isTagChar (Utf8.encodeStr cs) = Utf8.firstBadC Utf8.isTagCharC cs :=
+  Utf8.firstBad_tag_encode cs (Utf8.chars_of_scalar cs h)
+
+/-- non-vacuity: KELVIN SIGN (U+212A, three bytes) in `alKum` is refused at byte offset 2 -/
+example : Utf8.firstBadC Utf8.isTagCharC [97, 108, 0x212A, 117, 109] = some 2 := by decide
 
 end Mpd.C20
